@@ -86,7 +86,7 @@ Definition entry (sel : Z) (toks : list Z) : list Z :=
          | Some rl => let '(r, mt) := new_resource rl in tag 1 ++ eRes r ++ tag 2 ++ [mt] | None => bad_input end
   (* util.ConvertRes2ResList on a Resource (unit grid) *)
   | 8 => match run_dec dRes toks with
-         | Some r => eRlist (convert r) | None => bad_input end
+         | Some r => eRlist (convert (unsentinel_res r)) | None => bad_input end
   (* SchedulerCache.buildTaskDRAInfo: the aggregated and the per-claim DRA requests of a pod *)
   | 9 => match run_dec dBuildInput toks with
          | Some (claims, refs) => eBuild (build_task_dra claims refs) | None => bad_input end
@@ -114,6 +114,8 @@ Definition entry (sel : Z) (toks : list Z) : list Z :=
   | 114 => match run_dec (let* a := dBool in let* b := dBool in let* c := dBool in let* d := dBool in
                           let* e := dBool in ret (a, b, c, d, e)) toks with
            | Some (a, b, c, d, e) => eBool (law_partial a b c d e) | None => bad_input end
+  | 117 => match run_dec (let* r := dRes in let* rr := dRes in let* mn := dRes in ret (r, rr, mn)) toks with
+           | Some (r, rr, mn) => eBool (law_min_inf r rr mn) | None => bad_input end
   | 116 => match run_dec (dPair dBool dBool) toks with
            | Some (a, b) => eBool (law_sub_assert a b) | None => bad_input end
   | 115 => match run_dec (let* m := dZ in let* i := dZ in let* mant := dZ in let* e := dZ in let* b := dZ in
@@ -129,7 +131,7 @@ Definition entry (sel : Z) (toks : list Z) : list Z :=
            | Some (d, o, ga, gs) => eBool (law_dra_ops d o ga gs) | None => bad_input end
   | 120 => match run_dec (let* r := dRes in let* rl := dRlist in let* r' := dRes in let* mt := dZ in
                           ret (r, rl, r', mt)) toks with
-           | Some (r, rl, r', mt) => eBool (law_rt_res r rl r' mt) | None => bad_input end
+           | Some (r, rl, r', mt) => eBool (law_rt_res (unsentinel_res r) rl r' mt) | None => bad_input end
   | 121 => match run_dec (let* rl := dRlist in let* r := dRes in let* mt := dZ in let* rl' := dRlist in
                           ret (rl, r, mt, rl')) toks with
            | Some (rl, r, mt, rl') => eBool (law_rt_list rl r mt rl') | None => bad_input end
